@@ -91,6 +91,10 @@ type crashFS struct {
 	failList     bool // the next directory listing fails (one-shot)
 	createLeaves bool // a creation hit by the counted fault leaves the empty file behind
 	commitLands  bool // a CommitState / SetStable hit by the counted fault takes effect and returns the error
+	// readFaultIn: ReadAt calls until one fails with EIO (transient, one-shot); 0 = off.
+	// Uncounted by the action log (reads are not actions of the model).
+	readFaultIn    int
+	readFaultFired int
 	// base: the disk right after the last crash; acts are the actions since then,
 	// numbered from baseCount
 	base      *crashFS
@@ -103,6 +107,7 @@ func newCrashFS() *crashFS {
 }
 
 var errInjected = errors.New("injected I/O fault")
+var errReadInjected = errors.New("injected read error (EIO)")
 
 // record appends the action; returns false when the action must fail.
 func (c *crashFS) record(a *action) bool {
@@ -285,6 +290,13 @@ func (h *chandle) ReadAt(p []byte, off int64) (int, error) {
 	}
 	if off < 0 {
 		return 0, errors.New("readat: negative offset") // as *os.File
+	}
+	if h.fs.readFaultIn > 0 {
+		h.fs.readFaultIn--
+		if h.fs.readFaultIn == 0 {
+			h.fs.readFaultFired++
+			return 0, errReadInjected
+		}
 	}
 	if off >= int64(len(f.data)) {
 		return 0, io.EOF
